@@ -624,6 +624,11 @@ type ShapeIndex struct {
 	// The set of shapes that have been queued for removal but not processed yet by
 	// applyUpdatesInternal.
 	pendingRemovals []*removedShape
+
+	// generation is incremented whenever the indexed cells change (pending
+	// updates applied, Reset), so that query objects can tell that what they
+	// cached about the index is out of date.
+	generation uint64
 }
 
 // NewShapeIndex creates a new ShapeIndex.
@@ -681,6 +686,7 @@ func (s *ShapeIndex) Reset() {
 	s.cells = nil
 	s.pendingAdditionsPos = 0
 	s.pendingRemovals = nil
+	s.generation++
 	atomic.StoreInt32(&s.status, fresh)
 }
 
@@ -878,6 +884,7 @@ func (s *ShapeIndex) applyUpdatesInternal() {
 
 	s.pendingRemovals = s.pendingRemovals[:0]
 	s.pendingAdditionsPos = s.nextID
+	s.generation++
 	// It is the caller's responsibility to update the index status.
 }
 
